@@ -246,8 +246,16 @@ func (k Key) Expires() time.Time {
 // SetExpires sets the expiration date for the key.
 func (k Key) SetExpires(value time.Time) {
 	expire := value.Unix()
-	if expire > 0 {
+	if expire != 0 {
+
+		// The field holds the seconds since 2010 in 32 bits. A date which does not fit is
+		// stored as the earliest or the latest date the field can hold, not wrapped around.
 		expire = expire - timeOffset
+		if expire < 1 {
+			expire = 1
+		} else if expire > math.MaxUint32 {
+			expire = math.MaxUint32
+		}
 	}
 	k[20] = byte(uint32(expire) >> 24)
 	k[21] = byte(uint32(expire) >> 16)
